@@ -115,6 +115,15 @@ def step (st : St) (line : String) : St × String :=
       | some d => if st.ok then ({ st with now := st.now + d }, verdict (impl == ["ok"]) none "ok") else (st, "bad-op")
       | none => (st, "bad-op")
     | _ => (st, "bad-op")
+  | "C19.setdb" :: rest =>
+    match splitArrow rest with
+    | some (ins, impl) =>
+      match ((do let db ← pList pHex; pEnd; pure db : P _).run ins) with
+      | some (db, _) =>
+        if !st.ok || !db.all (fun h => h.length == 32) then (st, "bad-op") else
+        ({ st with db := db }, verdict (impl == ["ok"]) none "ok")
+      | none => (st, "bad-op")
+    | none => (st, "bad-op")
   | "C19.check" :: rest =>
     match splitArrow rest with
     | some (ins, impl) =>
